@@ -311,6 +311,261 @@ def _():
     return [('inst', [choice, T.iso_rel_b(R, D1, D2) == T.iso_pred(h, d1, d2), T.iso_b(D1, D2) == T.iso_pred(T.isofn(D1, D2), d1, d2), T.iso_rel_b(R, D1, D2)], T.iso_b(D1, D2))]
 
 
+def ext_eq(lhs, rhs, hyps=(), tag=''):
+    """an equality of sets proved pointwise, then by extensionality"""
+    x = fresh_z('x', Atom)
+    pw = ForAll([x], Select(lhs, x) == Select(rhs, x))
+    return [(tag + 'pointwise', list(hyps), pw), (tag + 'ext', [pw], lhs == rhs)]
+
+
+_V_ = Const('V_', T.ViewN); _e_ = Const('e_', Atom); _S1 = Const('S1_', T.SetA); _S2 = Const('S2_', T.SetA); _a_ = Const('a_', Atom)
+
+
+@proof('nfax', 'Nhat-is-NS')
+def _():
+    q = Const('q_', Atom)
+    return word_ind(lambda w: T.Nhat(_V_, _e_, q, w) == T.NS(_V_, _e_, T.single(q), w))
+
+
+@proof('nfax', 'Eclo-union')
+def _():
+    x = Const('x_', Atom)
+    U12 = T.U(_S1, _S2); E = lambda S: T.Eclo(_V_, _e_, S)
+    Tt = T.U(E(_S1), E(_S2))
+    sub = ('sub', [T.Eclo_least(_V_, _e_, U12, Tt)], ForAll([x], Implies(Select(E(U12), x), Select(Tt, x))))
+    sup1 = ('sup1', [T.Eclo_least(_V_, _e_, _S1, E(U12))], ForAll([x], Implies(Select(E(_S1), x), Select(E(U12), x))))
+    sup2 = ('sup2', [T.Eclo_least(_V_, _e_, _S2, E(U12))], ForAll([x], Implies(Select(E(_S2), x), Select(E(U12), x))))
+    fin = ext_eq(E(U12), Tt, [sub[2], sup1[2], sup2[2]])
+    return [sub, sup1, sup2] + fin
+
+
+@proof('nfax', 'move-union')
+def _(): return ext_eq(T.move(_V_, T.U(_S1, _S2), _a_), T.U(T.move(_V_, _S1, _a_), T.move(_V_, _S2, _a_)))
+@proof('nfax', 'move-empty')
+def _(): return ext_eq(T.move(_V_, T.EMPTYA, _a_), T.EMPTYA)
+@proof('nfax', 'Eclo-empty-eq')
+def _(): return ext_eq(T.Eclo(_V_, _e_, T.EMPTYA), T.EMPTYA)
+@proof('nfax', 'NS-union')
+def _(): return word_ind(lambda w: T.NS(_V_, _e_, T.U(_S1, _S2), w) == T.U(T.NS(_V_, _e_, _S1, w), T.NS(_V_, _e_, _S2, w)))
+@proof('nfax', 'NS-empty')
+def _(): return word_ind(lambda w: T.NS(_V_, _e_, T.EMPTYA, w) == T.EMPTYA)
+@proof('nfax', 'eclo-move-pw')
+def _():
+    x, y, q = Consts('x_ y_ q_', Atom)
+    M = T.move(_V_, _S1, _a_)
+    bs = ForAll([x], Select(T.Eclo(_V_, _e_, M), x) == z3.Exists([y], And(Select(M, y), Select(T.Eclo(_V_, _e_, T.single(y)), x))))      # instance of Eclo-by-singletons
+    mv = ForAll([y], Select(M, y) == z3.Exists([q], And(Select(_S1, q), Select(Select(_V_, T.mkKey2(q, _a_)), y))))
+    return [('by-singletons', [], bs), ('move', [], mv),
+            ('combine', [bs, mv], ForAll([x], Select(T.Eclo(_V_, _e_, M), x) == z3.Exists([y, q], And(Select(_S1, q), Select(Select(_V_, T.mkKey2(q, _a_)), y), Select(T.Eclo(_V_, _e_, T.single(y)), x)))))]
+
+
+@proof('nfax', 'NS-closed')
+def _(): return word_ind(lambda w: T.Eclo(_V_, _e_, T.NS(_V_, _e_, _S1, w)) == T.NS(_V_, _e_, _S1, w))
+
+
+def _embed_consts():
+    VR, VN = Consts('VR_ VN_', T.ViewN); eR, eN = Consts('eR_ eN_', Atom); Q, Sg = Consts('Q_ Sg_', T.SetA)
+    return VR, eR, VN, eN, Q, Sg
+
+
+@proof('nfax', 'embed-eclo')
+def _():
+    VR, eR, VN, eN, Q, Sg = _embed_consts(); x = Const('x_', Atom)
+    hyp = T.embed_pred(VR, eR, VN, eN, Q, Sg); sub = T._sub(_S1, Q)
+    ER, EN = T.Eclo(VR, eR, _S1), T.Eclo(VN, eN, _S1)
+    inQ = ('inQ', [hyp, sub, T.Eclo_least(VN, eN, _S1, Q)], T._sub(EN, Q))
+    le = ('R-le-N', [hyp, sub, inQ[2], T.Eclo_least(VR, eR, _S1, EN)], T._sub(ER, EN))
+    ge = ('N-le-R', [hyp, sub, inQ[2], le[2], T.Eclo_least(VN, eN, _S1, ER)], T._sub(EN, ER))
+    return [inQ, le, ge] + ext_eq(ER, EN, [le[2], ge[2]])
+
+
+@proof('nfax', 'embed-move')
+def _():
+    VR, eR, VN, eN, Q, Sg = _embed_consts()
+    hyp = T.embed_pred(VR, eR, VN, eN, Q, Sg); sub = T._sub(_S1, Q)
+    return ext_eq(T.move(VR, _S1, _a_), z3.If(Select(Sg, _a_), T.move(VN, _S1, _a_), T.EMPTYA), [hyp, sub, _a_ != eR]) + [('inQ', [hyp, sub], T._sub(T.move(VN, _S1, _a_), Q))]
+
+
+@proof('nfax', 'embed-sim')
+def _():
+    VR, eR, VN, eN, Q, Sg = _embed_consts(); SgR = Const('SgR_', T.SetA)
+    hyp = T.embed_b(VR, eR, VN, eN, Q, Sg); sub = T._sub(_S1, Q); ne = Not(Select(SgR, eR))
+    w = Const('w_', Word); a = _a_
+    P = lambda w: Implies(T.over(SgR, w), And(T.NS(VR, eR, _S1, w) == z3.If(T.over(Sg, w), T.NS(VN, eN, _S1, w), T.EMPTYA), T._sub(T.NS(VR, eR, _S1, w), Q)))
+    base = ('base', [hyp, sub, ne], P(Word.nil))
+    X = T.NS(VR, eR, _S1, w); XN = T.NS(VN, eN, _S1, w); M = T.move(VR, X, a); MN = T.move(VN, X, a)
+    ctx = [hyp, sub, ne, P(w), T.over(SgR, Word.snoc(w, a))]
+    s1 = ('step-1', ctx, And(T._sub(X, Q), a != eR, X == z3.If(T.over(Sg, w), XN, T.EMPTYA)))
+    s2 = ('step-2', [hyp, s1[2]], And(M == z3.If(Select(Sg, a), MN, T.EMPTYA), T._sub(MN, Q)))
+    s3 = ('step-3', [s2[2]], T._sub(M, Q))
+    s4 = ('step-4', [hyp, s3[2]], And(T.Eclo(VR, eR, M) == T.Eclo(VN, eN, M), T._sub(T.Eclo(VN, eN, M), Q)))
+    s5 = ('step-5', [s1[2], s2[2], s4[2], T.over(SgR, Word.snoc(w, a))], And(T.NS(VR, eR, _S1, Word.snoc(w, a)) == z3.If(T.over(Sg, Word.snoc(w, a)), T.NS(VN, eN, _S1, Word.snoc(w, a)), T.EMPTYA),
+                                                                               T._sub(T.NS(VR, eR, _S1, Word.snoc(w, a)), Q)))
+    return [base, s1, s2, s3, s4, s5]
+
+
+def _nfa_consts(*names):
+    return [SV(REC('NFA'), Const(n, T._NFAs)) for n in names]
+
+
+@proof('nfax', 'union-sim')
+def _():
+    N1, N2, R = _nfa_consts('N1_', 'N2_', 'R_')
+    V1, V2, VR = T.nfa_view(N1), T.nfa_view(N2), T.nfa_view(R); e1, e2 = T._eps(N1), T._eps(N2)
+    Q1, Q2, S1, S2, SR = rec_get(N1, 'Q').z, rec_get(N2, 'Q').z, rec_get(N1, 'Sigma').z, rec_get(N2, 'Sigma').z, rec_get(R, 'Sigma').z
+    r0, q1, q2 = rec_get(R, 'q0').z, rec_get(N1, 'q0').z, rec_get(N2, 'q0').z
+    x = Const('x_', Atom); w = Const('w_', Word); a = _a_
+    st = T.union_struct(N1, N2, R)
+    wf = ('view-wf', [st], And(T.view_wf(N1), T.view_wf(N2)))
+    facts = [st, wf[2]]
+    em1 = ('embed-1', facts, T.embed_b(VR, e1, V1, e1, Q1, S1))
+    em2 = ('embed-2', facts, T.embed_b(VR, e1, V2, e2, Q2, S2))
+    I = T.U(T.single(q1), T.single(q2))
+    top = lambda w: z3.If(w == Word.nil, T.single(r0), T.EMPTYA)
+    NSR = lambda S, w: T.NS(VR, e1, S, w)
+    # (1) from the new initial state: itself (empty word only) and whatever is reachable from the two old initial states
+    ER = lambda S: T.Eclo(VR, e1, S)
+    Tt = T.U(T.single(r0), ER(I))
+    b_sub = ('top-base-sub', facts + [T.Eclo_least(VR, e1, T.single(r0), Tt)], T._sub(ER(T.single(r0)), Tt))
+    b_sup0 = ('top-base-sup0', facts, T._sub(I, ER(T.single(r0))))
+    b_sup1 = ('top-base-sup1', [b_sup0[2], T.Eclo_least(VR, e1, I, ER(T.single(r0)))], T._sub(ER(I), ER(T.single(r0))))
+    b_sup = ('top-base-sup', [b_sup1[2]], T._sub(Tt, ER(T.single(r0))))
+    b_eq = ext_eq(NSR(T.single(r0), Word.nil), T.U(top(Word.nil), NSR(I, Word.nil)), [b_sub[2], b_sup[2]], 'top-base-')
+    Ptop = lambda w: Implies(T.over(SR, w), NSR(T.single(r0), w) == T.U(top(w), NSR(I, w)))
+    mv0 = ('top-step-move', facts + [Select(SR, a)], T.move(VR, T.single(r0), a) == T.EMPTYA)
+    mv1 = ('top-step-move-nil', facts + [Select(SR, a)], T.move(VR, top(w), a) == T.EMPTYA)
+    stp = ('top-step', [Ptop(w), mv1[2], T.over(SR, Word.snoc(w, a))], NSR(T.single(r0), Word.snoc(w, a)) == T.U(top(Word.snoc(w, a)), NSR(I, Word.snoc(w, a))))
+    allw = ForAll([w], Ptop(w))
+    # (2) from the two old initial states: the two operands run side by side
+    split = ForAll([w], Implies(T.over(SR, w), And(NSR(I, w) == T.U(z3.If(T.over(S1, w), T.NS(V1, e1, T.single(q1), w), T.EMPTYA), z3.If(T.over(S2, w), T.NS(V2, e2, T.single(q2), w), T.EMPTYA)),
+                                                  T._sub(NSR(T.single(q1), w), Q1), T._sub(NSR(T.single(q2), w), Q2))))
+    pre = ('split-pre', facts, And(Not(Select(SR, e1)), T._sub(T.single(q1), Q1), T._sub(T.single(q2), Q2)))
+    inst1 = Implies(T.over(SR, w), And(NSR(T.single(q1), w) == z3.If(T.over(S1, w), T.NS(V1, e1, T.single(q1), w), T.EMPTYA), T._sub(NSR(T.single(q1), w), Q1)))
+    inst2 = Implies(T.over(SR, w), And(NSR(T.single(q2), w) == z3.If(T.over(S2, w), T.NS(V2, e2, T.single(q2), w), T.EMPTYA), T._sub(NSR(T.single(q2), w), Q2)))
+    sp1 = ('split-1', [em1[2], pre[2]], inst1)
+    sp2 = ('split-2', [em2[2], pre[2]], inst2)
+    sp = ('split', [ForAll([w], inst1), ForAll([w], inst2)], split)
+    # (3) acceptance
+    goal = Implies(T.over(SR, w), T.accepts_z(R, w) == Or(And(T.over(S1, w), T.accepts_z(N1, w)), And(T.over(S2, w), T.accepts_z(N2, w))))
+    NhR, Nh1, Nh2 = T.Nhat(VR, e1, r0, w), T.Nhat(V1, e1, q1, w), T.Nhat(V2, e2, q2, w)
+    a1 = ('accept-1', [allw, split, T.over(SR, w)], ForAll([x], Select(NhR, x) == Or(And(w == Word.nil, x == r0), And(T.over(S1, w), Select(Nh1, x)), And(T.over(S2, w), Select(Nh2, x)))))
+    a2 = ('accept-2', [inst1, inst2, T.over(SR, w)], And(ForAll([x], Implies(And(T.over(S1, w), Select(Nh1, x)), Select(Q1, x))), ForAll([x], Implies(And(T.over(S2, w), Select(Nh2, x)), Select(Q2, x)))))
+    fin = ('accept', facts + [a1[2], a2[2]], goal)
+    return [wf, em1, em2, b_sub, b_sup0, b_sup1, b_sup] + b_eq + [mv0, mv1, stp, pre, sp1, sp2, sp, a1, a2, fin]
+
+
+def _cat_setup():
+    N1, N2, R = _nfa_consts('N1_', 'N2_', 'R_')
+    d = dict(N1=N1, N2=N2, R=R, V1=T.nfa_view(N1), V2=T.nfa_view(N2), VR=T.nfa_view(R), e1=T._eps(N1), e2=T._eps(N2),
+             Q1=rec_get(N1, 'Q').z, Q2=rec_get(N2, 'Q').z, S1=rec_get(N1, 'Sigma').z, S2=rec_get(N2, 'Sigma').z, SR=rec_get(R, 'Sigma').z,
+             q1=rec_get(N1, 'q0').z, q2=rec_get(N2, 'q0').z, F1=rec_get(N1, 'F').z, F2=rec_get(N2, 'F').z)
+    d['st'] = T.cat_struct(N1, N2, R)
+    d['wf'] = ('view-wf', [d['st']], And(T.view_wf(N1), T.view_wf(N2)))
+    d['facts'] = [d['st'], d['wf'][2]]
+    d['em2'] = ('embed-2', d['facts'], T.embed_b(d['VR'], d['e1'], d['V2'], d['e2'], d['Q2'], d['S2']))
+    return d
+
+
+@proof('nfax', 'cat-eclo')
+def _():
+    c = _cat_setup(); x = Const('x_', Atom); Y = _S1
+    VR, V1, V2, e1, e2, Q1, Q2 = c['VR'], c['V1'], c['V2'], c['e1'], c['e2'], c['Q1'], c['Q2']
+    sub = T._sub(Y, Q1)
+    E1 = T.Eclo(V1, e1, Y); E2s = T.Eclo(V2, e2, T.single(c['q2'])); ER = T.Eclo(VR, e1, Y)
+    hit = z3.Exists([x], And(Select(c['F1'], x), Select(E1, x)))
+    Tt = T.U(E1, z3.If(hit, E2s, T.EMPTYA))
+    in1 = ('E1-in-Q1', c['facts'] + [sub, T.Eclo_least(V1, e1, Y, Q1)], T._sub(E1, Q1))
+    in2 = ('E2-in-Q2', c['facts'] + [T.Eclo_least(V2, e2, T.single(c['q2']), Q2)], T._sub(E2s, Q2))
+    le = ('R-le', c['facts'] + [sub, in1[2], in2[2], T.Eclo_least(VR, e1, Y, Tt)], T._sub(ER, Tt))
+    ge1 = ('ge-1', c['facts'] + [sub, T.Eclo_least(V1, e1, Y, ER)], T._sub(E1, ER))
+    ge2a = ('ge-2a', c['facts'] + [ge1[2], in1[2], hit], Select(ER, c['q2']))
+    ge2 = ('ge-2', c['facts'] + [T.Eclo_least(V2, e2, T.single(c['q2']), ER), Implies(hit, Select(ER, c['q2']))], Implies(hit, T._sub(E2s, ER)))
+    return [c['wf'], in1, in2, le, ge1, ge2a, ge2] + ext_eq(ER, Tt, [le[2], ge1[2], ge2[2]])
+
+
+@proof('nfax', 'Bcat-char')
+def _():
+    c = _cat_setup(); N1z, N2z = c['N1'].z, c['N2'].z
+    x, y, z = Consts('x_ y_ z_', Atom); k = Const('k_', z3.IntSort()); w = Const('w_', Word); a = _a_
+    V2, e2, S2 = c['V2'], c['e2'], c['S2']; s2 = T.single(c['q2'])
+    K = lambda k, w, x: And(0 <= k, k <= T.wlen(w), T.lang_b(N1z, T.take(k, w)), T.over(S2, T.drop(k, w)), Select(T.NS(V2, e2, s2, T.drop(k, w)), x))
+    P = lambda w: ForAll([x], Select(T.Bcat(N1z, N2z, w), x) == z3.Exists([k], K(k, w, x)))
+    base1 = ('base-fwd', [Select(T.Bcat(N1z, N2z, Word.nil), x)], K(0, Word.nil, x))
+    base2 = ('base-bwd', [K(k, Word.nil, x)], Select(T.Bcat(N1z, N2z, Word.nil), x))
+    base = ('base', [ForAll([x], Implies(Select(T.Bcat(N1z, N2z, Word.nil), x), K(0, Word.nil, x))), ForAll([x, k], Implies(K(k, Word.nil, x), Select(T.Bcat(N1z, N2z, Word.nil), x)))], P(Word.nil))
+    wa = Word.snoc(w, a)
+    start = And(T.lang_b(N1z, wa), Select(T.Eclo(V2, e2, s2), x))
+    mv = And(Select(S2, a), Select(T.Eclo(V2, e2, T.move(V2, T.Bcat(N1z, N2z, w), a)), x))
+    unfold = ('step-unfold', [], Select(T.Bcat(N1z, N2z, wa), x) == Or(mv, start))
+    f1 = ('step-fwd-start', [start], K(T.wlen(w) + 1, wa, x))
+    # a move: some state z of Bcat(w) has an a-move to y whose closure contains x; z comes with a split position k of w
+    f2 = ('step-fwd-move', [Select(S2, a), K(k, w, z), Select(Select(V2, T.mkKey2(z, a)), y), Select(T.Eclo(V2, e2, T.single(y)), x)], K(k, wa, x))
+    f2b = ('step-fwd-move-all', [P(w), mv, ForAll([k, z, y], Implies(And(Select(S2, a), K(k, w, z), Select(Select(V2, T.mkKey2(z, a)), y), Select(T.Eclo(V2, e2, T.single(y)), x)), K(k, wa, x)))], z3.Exists([k], K(k, wa, x)))
+    b1 = ('step-bwd-last', [K(k, wa, x), k == T.wlen(w) + 1], start)
+    b2 = ('step-bwd-inner', [P(w), K(k, wa, x), k <= T.wlen(w)], mv)
+    fin = ('step', [ForAll([x], Select(T.Bcat(N1z, N2z, wa), x) == Or(mv, start)), ForAll([x], Implies(start, K(T.wlen(w) + 1, wa, x))), ForAll([x], Implies(mv, z3.Exists([k], K(k, wa, x)))),
+                    ForAll([x, k], Implies(And(K(k, wa, x), k == T.wlen(w) + 1), start)), ForAll([x, k], Implies(And(K(k, wa, x), k <= T.wlen(w)), mv))], P(wa))
+    return [base1, base2, base, unfold, f1, f2, f2b, b1, b2, fin]
+
+
+@proof('nfax', 'cat-sim')
+def _():
+    c = _cat_setup(); N1z, N2z = c['N1'].z, c['N2'].z
+    VR, V1, V2, e1, e2, Q1, Q2, S1, S2, SR = c['VR'], c['V1'], c['V2'], c['e1'], c['e2'], c['Q1'], c['Q2'], c['S1'], c['S2'], c['SR']
+    x = Const('x_', Atom); w = Const('w_', Word); a = _a_; wa = Word.snoc(w, a)
+    s1 = T.single(c['q1']); s2 = T.single(c['q2'])
+    stb = T.cat_b(N1z, N2z, c['R'].z)            # opaque form, for the lemma cat-eclo
+    C = lambda w: T.NS(VR, e1, s1, w)
+    A = lambda w: z3.If(T.over(S1, w), T.NS(V1, e1, s1, w), T.EMPTYA)
+    B = lambda w: T.Bcat(N1z, N2z, w)
+    E2s = T.Eclo(V2, e2, s2)
+    hitw = lambda w: z3.Exists([x], And(Select(c['F1'], x), Select(T.Eclo(V1, e1, s1) if w is None else T.Eclo(V1, e1, T.move(V1, A(w), a)), x)))
+    P = lambda w: Implies(T.over(SR, w), And(C(w) == T.U(A(w), B(w)), T._sub(A(w), Q1), T._sub(B(w), Q2)))
+    facts = c['facts'] + [stb]
+    # ---- base
+    b0 = ('base-eclo', facts, T.Eclo(VR, e1, s1) == T.U(T.Eclo(V1, e1, s1), z3.If(hitw(None), E2s, T.EMPTYA)))
+    b1 = ('base-hit', facts, hitw(None) == T.lang_b(N1z, Word.nil))
+    b2 = ('base-sub', facts + [T.Eclo_least(V1, e1, s1, Q1), T.Eclo_least(V2, e2, s2, Q2)], And(T._sub(T.Eclo(V1, e1, s1), Q1), T._sub(E2s, Q2)))
+    base = ('base', [b0[2], b1[2], b2[2]], P(Word.nil))
+    # ---- step
+    ctx = facts + [P(w), T.over(SR, wa), c['em2'][2]]
+    M1 = T.move(V1, A(w), a); M2 = z3.If(Select(S2, a), T.move(V2, B(w), a), T.EMPTYA)
+    m1 = ('step-move-1', ctx, And(T.move(VR, A(w), a) == M1, T._sub(M1, Q1), a != e1))
+    m2 = ('step-move-2', ctx, And(T.move(VR, B(w), a) == M2, T._sub(M2, Q2)))
+    mv = ('step-move', [P(w), T.over(SR, wa), m1[2], m2[2]], T.move(VR, C(w), a) == T.U(M1, M2))
+    e1_ = ('step-eclo-1', facts + [m1[2]], T.Eclo(VR, e1, M1) == T.U(T.Eclo(V1, e1, M1), z3.If(hitw(w), E2s, T.EMPTYA)))
+    e2_ = ('step-eclo-2', facts + [c['em2'][2], m2[2]], And(T.Eclo(VR, e1, M2) == T.Eclo(V2, e2, M2), T._sub(T.Eclo(V2, e2, M2), Q2)))
+    ec = ('step-eclo', [mv[2], e1_[2], e2_[2]], C(wa) == T.U(T.U(T.Eclo(V1, e1, M1), z3.If(hitw(w), E2s, T.EMPTYA)), T.Eclo(V2, e2, M2)))
+    a1 = ('step-A', facts + [T.over(SR, wa)], A(wa) == T.Eclo(V1, e1, M1))
+    h1 = ('step-hit', facts + [a1[2], T.over(SR, wa)], hitw(w) == T.lang_b(N1z, wa))
+    bb = ('step-B', [h1[2]], B(wa) == T.U(T.Eclo(V2, e2, M2), z3.If(hitw(w), E2s, T.EMPTYA)))
+    sb = ('step-sub', facts + [m1[2], e2_[2], a1[2], bb[2], T.Eclo_least(V1, e1, M1, Q1), T.Eclo_least(V2, e2, s2, Q2)], And(T._sub(A(wa), Q1), T._sub(B(wa), Q2)))
+    fin = ext_eq(C(wa), T.U(A(wa), B(wa)), [ec[2], a1[2], bb[2]], 'step-')
+    stp = ('step', [fin[1][2], sb[2]], P(wa))
+    return [c['wf'], c['em2'], b0, b1, b2, base, m1, m2, mv, e1_, e2_, ec, a1, h1, bb, sb] + fin + [stp]
+
+
+@proof('nfax', 'cat-lang')
+def _():
+    c = _cat_setup(); N1z, N2z, Rz = c['N1'].z, c['N2'].z, c['R'].z
+    VR, V1, V2, e1, e2, Q1, Q2, S1, S2, SR = c['VR'], c['V1'], c['V2'], c['e1'], c['e2'], c['Q1'], c['Q2'], c['S1'], c['S2'], c['SR']
+    x = Const('x_', Atom); w = Const('w_', Word); k = Const('k_', z3.IntSort())
+    s1 = T.single(c['q1']); s2 = T.single(c['q2']); stb = T.cat_b(N1z, N2z, Rz)
+    A = z3.If(T.over(S1, w), T.NS(V1, e1, s1, w), T.EMPTYA); B = T.Bcat(N1z, N2z, w)
+    facts = c['facts'] + [stb, T.over(SR, w)]
+    inA = ('A-in-Q1', facts + [T.embed_b(V1, e1, V1, e1, Q1, S1)], T._sub(A, Q1))
+    selfem = ('self-embed', c['facts'], T.embed_b(V1, e1, V1, e1, Q1, S1))
+    accR = ('acc-R', facts + [inA[2]], T.acc_b(Rz, w) == z3.Exists([x], And(Select(c['F2'], x), Select(B, x))))
+    char = ForAll([x], Select(B, x) == z3.Exists([k], And(0 <= k, k <= T.wlen(w), T.lang_b(N1z, T.take(k, w)), T.over(S2, T.drop(k, w)), Select(T.NS(V2, e2, s2, T.drop(k, w)), x))))
+    ch = ('char', [], char)
+    acc2 = ('acc-2', [], ForAll([k], T.acc_b(N2z, T.drop(k, w)) == z3.Exists([x], And(Select(c['F2'], x), Select(T.NS(V2, e2, s2, T.drop(k, w)), x)))))
+    goal = T.acc_b(Rz, w) == z3.Exists([k], And(0 <= k, k <= T.wlen(w), T.lang_b(N1z, T.take(k, w)), T.lang_b(N2z, T.drop(k, w))))
+    fwd = ('fwd', [accR[2], char, acc2[2], T.acc_b(Rz, w)], z3.Exists([k], And(0 <= k, k <= T.wlen(w), T.lang_b(N1z, T.take(k, w)), T.lang_b(N2z, T.drop(k, w)))))
+    bwd = ('bwd', [accR[2], char, acc2[2], And(0 <= k, k <= T.wlen(w), T.lang_b(N1z, T.take(k, w)), T.lang_b(N2z, T.drop(k, w)))], T.acc_b(Rz, w))
+    fin = ('final', [Implies(T.acc_b(Rz, w), fwd[2]), ForAll([k], Implies(And(0 <= k, k <= T.wlen(w), T.lang_b(N1z, T.take(k, w)), T.lang_b(N2z, T.drop(k, w))), T.acc_b(Rz, w)))], goal)
+    return [c['wf'], selfem, inA, accR, ch, acc2, fwd, bwd, fin]
+
+
 def int_ind(P, lo=0):
     """induction on an integer >= lo: P(lo) and (j >= lo and P(j)) => P(j+1)"""
     j = fresh_z('j', z3.IntSort())
@@ -335,7 +590,7 @@ def prove_lemmas(theories, timeout=10):
     """-> list of (name, status, log); a lemma may use the def/lfp/assumed axioms of the selected theories and earlier lemmas"""
     from .smt import discharge
     obls = []
-    order = ['word', 'wordx', 'naming', 'dfa', 'nfa', 'dfax', 'regexp', 'tm', 'pda', 'cfg', 'iso', 'subset']
+    order = ['word', 'wordx', 'naming', 'dfa', 'nfa', 'dfax', 'nfax', 'regexp', 'tm', 'pda', 'cfg', 'iso', 'subset']
     ths = [t for t in order if t in theories] + [t for t in theories if t not in order]
     from .verify import DEPENDS
     def closure(t, out=None):
